@@ -1443,6 +1443,25 @@ def oracle_case(ctx, kind, spec, extra=None):
             ctx.violation(exc_sig(out, f"geo{which}-fault-{spec['fault']}-{'accepted' if ok else out}"),
                           f"check_on_geo{which}: malformed tables ({spec['fault']}) " + ("produce a geometry" if ok else f"raise {out}") + " instead of ValueError",
                           inp, observed="accepted" if ok else out, expected="ValueError")
+    elif kind in ("byfile", "byfile_fault"):
+        # clause 1: the geometry defined "from tables as read from the Excel template" (the reader replaced by the tables)
+        S = _setup_cls()
+        ok, out = run(lambda: call_by_file(S, which, build(spec), spec["ref_ind"])[0])
+        if kind == "byfile_fault":
+            if ok or out != "ValueError":
+                ctx.violation(exc_sig(out, f"def_geo{which}_by_file-fault-{spec['fault']}-{'accepted' if ok else out}"),
+                              f"def_geo{which}_by_file: malformed tables ({spec['fault']}) " + ("produce a geometry" if ok else f"raise {out}") + " instead of ValueError",
+                              inp, observed="accepted" if ok else out, expected="ValueError")
+            return
+        if not ok:
+            ctx.violation(exc_sig(out, f"def_geo{which}_by_file-valid-rejected-{out}"),
+                          f"def_geo{which}_by_file: a well-formed table set (sheets present: {sorted(fd)}) raises {out}: {LAST['msg'][:80]}",
+                          inp, observed=out, expected="geometry")
+            return
+        j = judge(spec, out)
+        if j:
+            ctx.violation(f"def_geo{which}_by_file-{j}", f"def_geo{which}_by_file: the stored geometry differs from the statement ({j})", inp,
+                          observed=summarize((True, out)))
     elif kind == "defgeo":
         S = _setup_cls()
         form, arrays = extra["form"], extra["arrays"]
@@ -1623,6 +1642,23 @@ def oracle(ctx, scale):
                     s2["drop"] = sorted(set(sub) | {"BG lines", "BG surfaces"})
                 oracle_case(ctx, "optional", s2)
                 ctx.count(f"oracle_optional_geo{which}")
+    # (1b) the same through the file entry points (clause 1), the reader replaced by the generated tables
+    for it in range(ctx.n(30, 400) * scale):
+        which = 1 + it % 2
+        spec = (gen_geo1 if which == 1 else gen_geo2)(rng, multi=(it % 4 < 2))
+        if which == 2 and it % 4 == 1:
+            _distinct_index_sheets(spec, rng)
+        oracle_case(ctx, "byfile", spec)
+        ctx.nontrivial.add(("oracle-byfile", which, spec["ref_ind"] is None, tuple(sorted(spec["opt"]))))
+        ctx.count(f"oracle_byfile{which}")
+        tags = [t for t in CORR1 if t != "dup_label"] if which == 1 else CORR2
+        cs = (corrupt1 if which == 1 else corrupt2)(spec, tags[(it // 2) % len(tags)], rng)
+        if cs is None:
+            ctx.skipped += 1
+        else:
+            oracle_case(ctx, "byfile_fault", cs)
+            ctx.nontrivial.add(("oracle-byfile-fault", which, cs["fault"]))
+            ctx.count(f"oracle_byfile{which}_fault_{cs['fault']}")
     # (2) documented argument forms of def_geo1 / def_geo2
     for it in range(ctx.n(40, 400) * scale):
         which = 1 + it % 2
